@@ -50,7 +50,8 @@ theorem invI_step (sq : Rat → Rat) (f : Fn) (x0 : Rat) (m : Nat) (pl : PL) (y'
   subst hpl
   have hc := cast_succ m
   have hlt : x0 + (m : Rat) < x0 + ((m + 1 : Nat) : Rat) := by rw [hc]; grind
-  have hcond : fadd (exactOps sq) (x0 + (m : Rat)) eps4 < x0 + ((m + 1 : Nat) : Rat) := by
+  have hcond : keepCond (exactOps sq) (x0 + (m : Rat)) (x0 + ((m + 1 : Nat) : Rat)) := by
+    unfold keepCond
     simp only [fadd, exactOps, id]
     rw [hc]; have := eps4_lt_one; grind
   unfold addPoint
